@@ -95,6 +95,7 @@ class EqSpec(object):
         if cls == 'Queue' and name == 'put' and st.entails(recv == st.rd(sv, '_compare_tasks')):
             st.g['obl'].append(('dispatch_invariant_at_put', st.copy(), D(st.g))); st.assume(D(st.g))
             st.g['tasks'] = z3.Unit(pos[0]); st.g['cur'] = pos[0]; st.g['phase'] = 'await'; st.events.append(('put', pos[0])); env(st)
+            if 'served' in st.g: st.g['served'] = st.g['served'] + 1          # ghost: tasks handed to the current worker
             return [(st, ('val', NONE))]
         if cls == 'Queue' and name == 'get' and st.entails(recv == st.rd(sv, '_compare_results')):
             st.g['get_args'] = st.g.get('get_args', []) + [tuple(pos)]
@@ -115,7 +116,9 @@ class EqSpec(object):
                 # a signalled idle worker exits (its loop polls the event; the exit itself is OS behaviour: assumed, C13)
                 st.events.append(('join', tuple(e_[0] for e_ in st.events))); st.g['w'] = z3.IntVal(NONE_W); return [(st, ('val', NONE))]
             if name == 'start':
-                st.events.append(('start',)); st.g['w'] = z3.IntVal(IDLE); return [(st, ('val', NONE))]
+                st.events.append(('start',)); st.g['w'] = z3.IntVal(IDLE)
+                if 'served' in st.g: st.g['served'] = z3.IntVal(0)            # ghost: a new worker has served nothing yet
+                return [(st, ('val', NONE))]
             if name == 'terminate':
                 env(st); st.events.append(('sigterm',)); return [(st, ('val', NONE))]      # SIGTERM can be handled or ignored by the replayed code: no state change guaranteed
             if name == 'kill':
@@ -242,7 +245,7 @@ def run_comparison(props=None):
     spec.loop = loop
     paths = ex.block(node.body, st); obl = []; U = 'run_comparison'
     for a, s_, c, oc_ in ex.obligations:
-        obl.append(Obl('C08/%s/%s' % (U, a), ('C08', 'C19'), s_, c, oc_))
+        obl.append(Obl('C08/%s/%s' % (U, a), ('C08', 'C19', 'C13') if 'honours_close' in a else ('C08', 'C19'), s_, c, oc_))
     for s, oc in paths:
         fin = [ev[0] for ev in s.events]
         obl.append(Obl('C13/%s/terminate_event_set_at_every_exit' % U, ('C13', 'C08'), s, z3.BoolVal('terminate.set' in fin), oc))
@@ -253,7 +256,7 @@ def run_comparison(props=None):
         elif oc[0] == 'raise':
             closed = s.g.get('closed_by_consumer', False)
             callee = [t for t in s.trace if t['kind'] in ('Callee', 'UserHook') and t['outcome'][0] == 'raise']
-            cl = z3.BoolVal(True) if closed else z3.Or(*[z3.And(oc[1] == t['outcome'][1], z3.Not(is_exc(t['outcome'][1]))) for t in callee]) if callee else z3.BoolVal(False)
+            cl = z3.BoolVal(not s.g.get('ignored_close')) if closed else z3.Or(*[z3.And(oc[1] == t['outcome'][1], z3.Not(is_exc(t['outcome'][1]))) for t in callee]) if callee else z3.BoolVal(False)
             obl.append(Obl('C08/%s/abnormal_exit_only_by_close_or_interrupt' % U, ('C08', 'C13'), s, cl, oc))
     return [info], obl, {'paths': len(paths), 'forks': ex.forks}
 
@@ -326,9 +329,13 @@ def within_worker(mode='dedicated', props=None):
     fresh_env(st)
     # class invariant between recordings (INV): with a worker handle the dispatch invariant D holds and the age is within the rate;
     # without one the queues may hold leftovers of a forgotten worker (they are replaced when the next worker is created)
+    # ghost `served`: the number of tasks handed to the current worker; the age the code keeps must BE that number (C13: a worker serves at
+    # most `rate` replays, whatever their outcome)
+    st.g['served'] = fresh('served', z3.IntSort())
+
     def INV(s):
         p = s.rd(selfv, '_compare_process'); a_ = Val.iv(s.rd(selfv, '_compare_process_age'))
-        return z3.If(p == NONE, z3.BoolVal(True), z3.And(D(s.g), s.g['w'] != NONE_W, a_ >= 1, a_ <= rate))
+        return z3.If(p == NONE, z3.BoolVal(True), z3.And(D(s.g), s.g['w'] != NONE_W, a_ >= 1, a_ <= rate, a_ == s.g['served']))
     st.assume(INV(st)); st.assume(z3.Implies(proc == NONE, st.g['w'] != IDLE))
     assert st.sat()
 
@@ -369,12 +376,12 @@ def within_worker(mode='dedicated', props=None):
         if oc[0] == 'return':
             obl.append(Obl('C08/%s/ret/result_is_for_this_recording' % U, 'C08', s,
                            z3.Or(*[z3.And(oc[1] == r, t == rid) for r, t in s.g['tagof']]) if s.g['tagof'] else z3.BoolVal(False), oc))
-            obl.append(Obl('C08/%s/ret/queues_clean_for_next_dispatch' % U, 'C08', s, z3.And(clean, INV(s), s.rd(selfv, '_compare_process') != NONE), oc))
+            obl.append(Obl('C08/%s/ret/queues_clean_for_next_dispatch' % U, ('C08', 'C13'), s, z3.And(clean, INV(s), s.rd(selfv, '_compare_process') != NONE), oc))
             obl.append(Obl('C13/%s/ret/age_within_recycle_rate' % U, 'C13', s, z3.And(a1 >= 1, a1 <= rate), oc))
         else:
             # after a timeout / worker death the queues may still hold this recording's task or answer: then the worker handle must be
             # gone, so that the next dispatch starts a worker with fresh queues (invariant INV re-established on every exit)
-            obl.append(Obl('C08/%s/exc/invariant_reestablished_leftovers_only_without_a_worker' % U, 'C08', s, INV(s), oc))
+            obl.append(Obl('C08/%s/exc/invariant_reestablished_leftovers_only_without_a_worker' % U, ('C08', 'C13'), s, INV(s), oc))
             obl.append(Obl('C08/%s/exc/is_ordinary_exception' % U, ('C08', 'C13'), s, is_exc(oc[1]), oc))
             forgot = s.rd(selfv, '_compare_process') == NONE
             killfail = ('kill-failed',) in s.events
